@@ -143,7 +143,7 @@ Lemma wf_field_parts : forall f, wf_field f = true ->
   (is_editions (f_edition f) || chain_empty (f_chain f)) = true /\
   ((f_label f =? LABEL_OPTIONAL) || (f_label f =? LABEL_REQUIRED) || (f_label f =? LABEL_REPEATED)) = true /\
   (negb (f_msg_mapentry f) || ((f_type f =? TYPE_MESSAGE) && (f_label f =? LABEL_REPEATED) && negb (f_is_ext f))) = true /\
-  (negb ((f_label f =? LABEL_REPEATED) || f_is_ext f) || negb (f_resolve f FieldPresence =? FP_LEGACY_REQUIRED)) = true /\
+  (negb ((f_label f =? LABEL_REPEATED) || f_is_ext f || f_has_oneof f || f_parent_mapentry f) || negb (f_resolve f FieldPresence =? FP_LEGACY_REQUIRED)) = true /\
   ((negb (f_parent_mapentry f) || (negb (f_is_ext f) && negb (f_type f =? TYPE_GROUP))) && negb (f_is_ext f && f_has_oneof f)) = true /\
   (negb (f_p3opt f) || ((f_label f =? LABEL_OPTIONAL) && (f_edition f =? ED_PROTO3))) = true.
 Proof. intros f H. unfold wf_field in H. repeat (apply andb_prop in H; destruct H as [H ?]). repeat split; assumption. Qed.
@@ -279,7 +279,7 @@ Lemma field_facts : forall f, wf_field f = true ->
     match f_packed f with Some b => b | None => f_resolve f RepeatedFieldEncoding =? RFE_PACKED end /\
   ((f_label f =? LABEL_OPTIONAL) || (f_label f =? LABEL_REQUIRED) || (f_label f =? LABEL_REPEATED)) = true /\
   (negb (f_msg_mapentry f) || ((f_type f =? TYPE_MESSAGE) && (f_label f =? LABEL_REPEATED) && negb (f_is_ext f))) = true /\
-  (negb ((f_label f =? LABEL_REPEATED) || f_is_ext f) || negb LR) = true /\
+  (negb ((f_label f =? LABEL_REPEATED) || f_is_ext f || f_has_oneof f || f_parent_mapentry f) || negb LR) = true /\
   ((negb (f_parent_mapentry f) || (negb (f_is_ext f) && negb (f_type f =? TYPE_GROUP))) && negb (f_is_ext f && f_has_oneof f)) = true /\
   (negb (f_p3opt f) || ((f_label f =? LABEL_OPTIONAL) && (f_edition f =? ED_PROTO3))) = true /\
   (is_editions (f_edition f) || (negb LR && negb DL)) = true.
@@ -517,12 +517,12 @@ Qed.
 Lemma source_rules_give_no_lr : forall f,
   only_ends_set_fp (f_chain f) = true ->
   (match fs_fp (file_fs (f_chain f)) with Some v => negb (v =? FP_LEGACY_REQUIRED) | None => true end) = true ->
-  (((f_label f =? LABEL_REPEATED) || f_is_ext f) = true -> fs_fp (chain_head (f_chain f)) = None) ->
+  (((f_label f =? LABEL_REPEATED) || f_is_ext f || f_has_oneof f || f_parent_mapentry f) = true -> fs_fp (chain_head (f_chain f)) = None) ->
   supported_edition (f_edition f) = true ->
-  (negb ((f_label f =? LABEL_REPEATED) || f_is_ext f) || negb (f_resolve f FieldPresence =? FP_LEGACY_REQUIRED)) = true.
+  (negb ((f_label f =? LABEL_REPEATED) || f_is_ext f || f_has_oneof f || f_parent_mapentry f) || negb (f_resolve f FieldPresence =? FP_LEGACY_REQUIRED)) = true.
 Proof.
   intros f Ho Hf Hr Hs.
-  destruct ((f_label f =? LABEL_REPEATED) || f_is_ext f) eqn:E; [| reflexivity].
+  destruct ((f_label f =? LABEL_REPEATED) || f_is_ext f || f_has_oneof f || f_parent_mapentry f) eqn:E; [| reflexivity].
   cbn [negb orb]. specialize (Hr eq_refl).
   unfold f_resolve, resolve_feature.
   assert (Hd : forall e, supported_edition e = true -> negb (edition_default e FieldPresence =? FP_LEGACY_REQUIRED) = true).
